@@ -11,7 +11,7 @@
    what unbounded channels with one stage running after the other deliver; [compose_states] the final
    state of every stage (for lifecycle detection: the final lifecycle table). *)
 From Coq Require Import List NArith Bool Arith Permutation.
-From AdltV Require Import Pipe.Kahn Pipe.KahnProofs.
+From AdltV Require Import Pipe.Kahn Pipe.KahnProofs Pipe.Loss Pipe.LossProofs.
 Import ListNotations.
 
 Section Statements.
@@ -124,6 +124,90 @@ Section Statements.
   Proof. exact (sorted_pipeline_permutation pre post g1 g2 input). Qed.
 End Statements.
 
+(* ---------------------------------------------------------------------------------------------------------------
+   One stage after the loss of its consumer, with a producer that only stops when its own send fails (Pipe/Loss.v).
+   [z_run z inputs k]: the loop of parse_lifecycles_buffered_from_stream with its send sites ([sstage]: drain loops
+   .send 1/2/4, bottom = queue or direct forward .send 3, final flush) against an outflow that accepts k messages and
+   fails from then on; [loss_run g inputs k]: the same for any stage of the pipeline model, reacting by its [on_err].
+   l_consumed = messages pulled from the inflow, l_returned_early = returned before the inflow ended (the Receiver is
+   dropped: the producer's next send fails). *)
+Section LossStatements.
+  Context {msg St : Type}.
+
+  (* what the consumer got before it disappeared is the k-prefix of what the undisturbed stage forwards, for all inputs and k *)
+  Theorem C13_loss_delivered_prefix (z : @sstage msg St) inputs k :
+    l_delivered (z_run z inputs k) = firstn k (z_out z (z_init z) inputs).
+  Proof. exact (z_run_delivered_prefix z inputs k). Qed.
+
+  (* after the loss (every send fails) the lifecycle loop pulls exactly until the first iteration whose bottom takes the
+     direct forward -- failing drain sends never end it, the failing direct forward always does *)
+  Theorem C13_lc_pull_after_loss (z : @sstage msg St) inputs s i f :
+    z_loop z s inputs 0 i (Some f) =
+    {| l_consumed := i + gone_pull z s inputs; l_delivered := []; l_first_fail := Some f;
+       l_returned_early := gone_exits z s inputs |}.
+  Proof. exact (z_loop_gone z inputs s i f). Qed.
+
+  (* bounded pull, for all inputs and all k: if the first failed send (at whatever send site) happens while one of the
+     first j+1 messages is processed, and message j is forwarded directly in whatever state the stage is, the stage has
+     returned after at most j+1 messages and the producer is told -- independent of how much input follows *)
+  Theorem C13_lc_bounded_pull (z : @sstage msg St) inputs k j m i0 :
+    nth_error inputs j = Some m -> (forall s, is_some (snd (z_bottom z s m)) = true) ->
+    l_first_fail (z_run z inputs k) = Some i0 -> i0 <= j ->
+    l_consumed (z_run z inputs k) <= S j /\
+    (S j < length inputs -> l_returned_early (z_run z inputs k) = true).
+  Proof. intros Hn Hd Hf Hle. exact (z_loop_bounded_pull z inputs (z_init z) k 0 j m i0 Hn Hd Hf Hle). Qed.
+
+  (* stages that return on a failed send (plugins, sort, filter: `?` / `return Err`): the iteration of the first failed
+     send is the last one, nothing more is pulled *)
+  Theorem C13_abort_stage_pull_after_loss (g : @stage msg St) inputs k :
+    (forall b s pd, on_err g b s pd = RAbort) ->
+    match l_first_fail (loss_run g inputs k) with
+    | None => l_consumed (loss_run g inputs k) = length inputs /\ l_returned_early (loss_run g inputs k) = false
+    | Some i0 =>
+      (i0 < length inputs /\ l_consumed (loss_run g inputs k) = S i0 /\ l_returned_early (loss_run g inputs k) = true) \/
+      (i0 = length inputs /\ l_consumed (loss_run g inputs k) = i0 /\ l_returned_early (loss_run g inputs k) = false)
+    end.
+  Proof.
+    intros Hab. pose proof (loss_abort g Hab inputs (init g) k 0) as H. cbv zeta in H. unfold loss_run.
+    destruct (l_first_fail (loss_loop g (init g) inputs k 0 None)) as [i0|].
+    - destruct H as [[H1 H2]|H]; [left; split; [apply H1|exact H2]|right; exact H].
+    - exact H.
+  Qed.
+
+  (* the site model is a stage of the pipeline model (all pipeline theorems above apply to it) with the same behaviour,
+     provided the bottom decision does not look at the queue -- as coded: `if !buffered_lcs.is_empty()` *)
+  Theorem C13_site_model_is_pipeline_stage (z : @sstage msg St) inputs k :
+    bottom_ignores_queue z -> loss_run (kahn_of z) inputs k = z_run z inputs k.
+  Proof. intros Hc. exact (kahn_of_refines z Hc inputs (z_init z) false k 0 None). Qed.
+End LossStatements.
+
+(* the miniature lifecycle loop: its bottom ignores the queue; the variant with the bottom guard "nothing directly while
+   something is queued" forwards exactly the same while the outflow works, returns just as promptly when the direct
+   forward fails, but after a failed DRAIN send pulls the complete rest of the input, however long (the behaviour class
+   of seeded change C13-3); the loop as coded returns at the next message *)
+Lemma C13_inst_lc_bottom k r : bottom_ignores_queue (z_lc k r).
+Proof. exact (z_lc_ignores_queue k r). Qed.
+Theorem C13_guarded_bottom_same_while_outflow_works k r inputs :
+  z_out (z_lc_guarded k r) (z_init (z_lc_guarded k r)) inputs = z_out (z_lc k r) (z_init (z_lc k r)) inputs.
+Proof. apply z_lc_guarded_invariant. discriminate. Qed.
+Theorem C13_guarded_bottom_pulls_everything k r t q b :
+  q <> [] -> Forall (fun m => (m mod k =? 0)%N = false) t ->
+  gone_pull (z_lc_guarded k r) (q, b) t = length t /\ gone_exits (z_lc_guarded k r) (q, b) t = false.
+Proof. exact (z_lc_guarded_pulls_everything k r t q b). Qed.
+Theorem C13_coded_bottom_returns_at_once k r m t q :
+  (m mod k =? 0)%N = false -> (m mod r =? 0)%N = false ->
+  gone_pull (z_lc k r) (q, false) (m :: t) = 1%nat /\ gone_exits (z_lc k r) (q, false) (m :: t) = true.
+Proof. exact (z_lc_prompt k r m t q). Qed.
+(* concrete: 40 messages, confirmation at message 10, the consumer leaves after 3: as coded 10 messages are pulled and the
+   producer is told, with the guard all 40 are pulled and the producer is never told *)
+Example C13_loss_nonvacuous :
+  let inp := map N.of_nat (seq 1 40) in
+  (l_consumed (z_run (z_lc 10 1000) inp 3), l_returned_early (z_run (z_lc 10 1000) inp 3),
+   l_first_fail (z_run (z_lc 10 1000) inp 3)) = (10%nat, true, Some 9%nat) /\
+  (l_consumed (z_run (z_lc_guarded 10 1000) inp 3), l_returned_early (z_run (z_lc_guarded 10 1000) inp 3)) = (40%nat, false) /\
+  loss_run (kahn_of (z_lc 10 1000)) inp 3 = z_run (z_lc 10 1000) inp 3.
+Proof. cbv zeta. repeat split; vm_compute; reflexivity. Qed.
+
 (* instances: the miniature sort is a permutation stage, the filter and the pass-through are congruent *)
 Lemma C13_inst_sort w : perm_stage (st_sort w).
 Proof. exact (st_sort_perm_stage w). Qed.
@@ -183,3 +267,13 @@ Print Assumptions C13_inst_filter.
 Print Assumptions C13_inst_sort_any_reads.
 Print Assumptions C13_sorted_instance_permutation.
 Print Assumptions C13_nonvacuous.
+Print Assumptions C13_loss_delivered_prefix.
+Print Assumptions C13_lc_pull_after_loss.
+Print Assumptions C13_lc_bounded_pull.
+Print Assumptions C13_abort_stage_pull_after_loss.
+Print Assumptions C13_site_model_is_pipeline_stage.
+Print Assumptions C13_inst_lc_bottom.
+Print Assumptions C13_guarded_bottom_same_while_outflow_works.
+Print Assumptions C13_guarded_bottom_pulls_everything.
+Print Assumptions C13_coded_bottom_returns_at_once.
+Print Assumptions C13_loss_nonvacuous.
